@@ -30,13 +30,44 @@ SPACES = {
 }
 
 
+def _big_cases():
+    """1x1 / 1x2 systems with coefficients of magnitude up to 128 and constants that are exact multiples (and their neighbours): the places
+    where a division rounds.  Returned as explicit (M, bounds) pairs."""
+    out = []
+    for a in [c for c in range(-128, 129) if c != 0]:
+        for k in (-3, -2, -1, 0, 1, 2, 3):
+            for d in (0, 1, -1):
+                b = k * a + d
+                for bd in ((0, 1), (-3, 3), (0, 5)):
+                    out.append((np.array([[b, a]], dtype=np.int64), [bd]))
+        for k in (1, 2, 3):
+            for bd2 in ((0, 1), (-1, 2)):
+                out.append((np.array([[k * a, a, 1]], dtype=np.int64), [(0, 4), bd2]))
+                out.append((np.array([[k * a, a, -1]], dtype=np.int64), [(-4, 4), bd2]))
+    return out
+
+
+_BIG = []
+
+
+def big_cases():
+    if not _BIG:
+        _BIG.extend(_big_cases())
+    return _BIG
+
+
 def size(name):
+    if name == "big":
+        return len(big_cases())
     r, c, ca, ba, bm = SPACES[name]
     return len(ca) ** (r * c) * len(ba) ** r * len(bm) ** c
 
 
 def case_at(name, idx):
     """Decode index -> (M, bounds): M is the (r, c+1) int matrix [b|A]."""
+    if name == "big":
+        M, bds = big_cases()[idx]
+        return M.copy(), list(bds)
     r, c, ca, ba, bm = SPACES[name]
     ca, ba = list(ca), list(ba)
     coefs = []
